@@ -417,6 +417,8 @@ func (x *Exec) mapWrite(st *State, m Val, k string, nv Val) {
 	x.setComp(st, "mval_"+sortTag(vs), Val{T: app("store", val.T, m.T, nvv), S: val.S})
 	st.wrote("mdom_"+sortTag(vs), m.T, "true")
 	st.wrote("mval_"+sortTag(vs), m.T, "true")
+	st.wroteThrough("mdom_"+sortTag(vs), m)
+	st.wroteThrough("mval_"+sortTag(vs), m)
 }
 
 func (x *Exec) mapDelete(st *State, m Val, k string) {
@@ -430,6 +432,7 @@ func (x *Exec) mapDelete(st *State, m Val, k string) {
 	}
 	x.setComp(st, "mdom_"+sortTag(vs), Val{T: app("store", dom.T, m.T, nd), S: dom.S})
 	st.wrote("mdom_"+sortTag(vs), m.T, "true")
+	st.wroteThrough("mdom_"+sortTag(vs), m)
 }
 
 func (x *Exec) elemSort(s Val) (string, types.Type) {
